@@ -71,17 +71,34 @@ class RecExtractor(SpecificationRuleExtractor):
         self.order = list(s)
         return s
 
+    def rules(self):
+        """records the class database as rules() finds it (a lookup in RuleDBForgetStrategy may label
+        classes and fill the emptiness cache), the rules yielded so far and the exception that ended it"""
+        cdb = self.classdb
+        self.cdb_before = (len(cdb.comb_class_list), list(cdb.empty_list))
+        self.yielded = []
+        self.rules_error = None
+        try:
+            for rule in super().rules():
+                self.yielded.append(rule)
+                yield rule
+        except Exception as e:  # pylint: disable=broad-except
+            self.rules_error = e
+            raise
+
 
 def expand_all(css):
     """Drive the searcher until its queue is exhausted."""
     css._expand_classes_for(1e9, None, 0, 0)  # pylint: disable=protected-access
 
 
-def search(case):
+def search(case, build_spec=True):
     """
     Returns dict(css, spec or None, extractor or None, error or None).
     Word universes use auto_search's normal slicing; table universes (which need
     not have a specification) are expanded to exhaustion first.
+    build_spec=False: the CombinatorialSpecification object is left to the caller.
+    out["find_rule"] is the extractor whether or not its rules() succeeded.
     """
     css = make_searcher(case)
     random.seed(case.get("tree_seed", 0))
@@ -107,12 +124,13 @@ def search(case):
             node = ruledb._get_specification_node(0, bool(case.get("smallest")))  # pylint: disable=protected-access
             ex = RecExtractor(css.start_label, node, ruledb, css.classdb)
             out["extractor"] = ex
+            out["find_rule"] = ex
             out["node"] = node
             rules = list(ex.rules())
         else:
             rules = list(ruledb.get_specification_rules())
         out["rules"] = rules
-        if case["kind"] == "word":
+        if case["kind"] == "word" and build_spec:
             # table universes have no combinatorial meaning: only their rule sets are examined
             out["spec"] = CombinatorialSpecification(css.start_class, rules)
     except SpecificationNotFound:
